@@ -3,6 +3,7 @@
 package main
 
 import (
+	"io"
 	"bufio"
 	"bytes"
 	"context"
@@ -411,7 +412,17 @@ func runAuth(line string, t []string) string {
 	w := httptest.NewRecorder()
 	eng.ServeHTTP(w, req)
 	after := poolSize()
-	return fmt.Sprintf("status=%d pool=%d>%d", w.Code, before, after)
+	// the answer is exactly one JSON value (a handler running after the rejection appends its own output)
+	one := 0
+	dec := json.NewDecoder(bytes.NewReader(w.Body.Bytes()))
+	var v interface{}
+	if dec.Decode(&v) == nil {
+		var extra interface{}
+		if err := dec.Decode(&extra); err == io.EOF {
+			one = 1
+		}
+	}
+	return fmt.Sprintf("status=%d pool=%d>%d one=%d", w.Code, before, after, one)
 }
 
 func poolSize() int {
